@@ -46,8 +46,10 @@ type RevocationStore struct {
 
 	// buckets is an array of elements from which we may derive all
 	// previous elements, each bucket corresponds to the element with the
-	// particular number of trailing zeros.
-	buckets [maxHeight]element
+	// particular number of trailing zeros. The very last element of the
+	// chain (index 0) has maxHeight trailing zeros, so we need one bucket
+	// more than the height of the tree.
+	buckets [maxHeight + 1]element
 
 	// index is an available index which will be assigned to the new
 	// element.
